@@ -17,6 +17,7 @@ import (
 	"github.com/lindb/lindb/models"
 	"github.com/lindb/lindb/pkg/trie"
 	"github.com/lindb/lindb/verif/internal/node"
+	"github.com/lindb/lindb/verif/internal/seam"
 )
 
 // Directed scenarios: small fixed data sets that make the narrow classes deterministic, and flushes that complete while
@@ -376,6 +377,112 @@ func scenarioFlushWindow(res *caseResult, dir, which string) {
 	res.count("directed_scenarios.flush-window-"+which, 1)
 }
 
+// scenarioGroupingFlushWindow: the group-by path. forwardIndex.GetGroupingContext works key by key; for the first key
+// it opens (maps) every table file of the forward family that nobody has read yet. The kv table map seam tells the
+// harness that the lookup is there - its snapshot is taken, the first key's memory scanners are collected - and starts
+// the running index flush (B is in the immutable stores); every further file mapping of the lookup is delayed a little
+// (pacing only) until the flush has completed, so that the remaining files of the first key and all of the second
+// key's work happen after the flush dropped the immutable store. The window counts as opened on logical events: the
+// first forward file was mapped before the flush was started and a later one after it had completed. Nothing is
+// written meanwhile, so the oracle is exact: every series of A and B in its (host, uid) group.
+func scenarioGroupingFlushWindow(res *caseResult, dir string) {
+	d, err := newDirected(res, dir, "flush-window-grouping")
+	if err != nil {
+		res.violation("C10/operation-failed", "directed: "+err.Error(), nil)
+		return
+	}
+	defer d.close()
+	defer seam.Restore()
+	shard, _ := d.n.Shard(0)
+	idxDB := shard.IndexDB()
+	mk := func(prefix string, k int) []map[string]string {
+		var ts []map[string]string
+		for i := 0; i < k; i++ {
+			ts = append(ts, map[string]string{"uid": fmt.Sprintf("%s-%d", prefix, i), "host": fmt.Sprintf("h%d", i%2), "dc": "d"})
+		}
+		return ts
+	}
+	// A: 40 flushes, each leaves one forward-index table file that no lookup has opened
+	for i := 0; i < 40; i++ {
+		d.write("m", mk(fmt.Sprintf("a%d", i), 3)...)
+		if err := d.n.FlushMeta(); err != nil {
+			res.violation("C10/operation-failed", err.Error(), nil)
+			return
+		}
+		if err := d.n.FlushIndex(); err != nil {
+			res.violation("C10/operation-failed", err.Error(), nil)
+			return
+		}
+	}
+	d.write("m", mk("b", 6)...)
+	d.logf("index PrepareFlush (B immutable)")
+	idxDB.PrepareFlush()
+	var mu sync.Mutex
+	maps, mapsAfterFlush := 0, 0
+	flushStarted, flushDone := false, false
+	start := make(chan struct{})
+	flushed := make(chan error, 1)
+	go func() {
+		<-start
+		err := idxDB.Flush()
+		mu.Lock()
+		flushDone = true
+		mu.Unlock()
+		flushed <- err
+	}()
+	marker := string(filepath.Separator) + "forward" + string(filepath.Separator)
+	seam.InstallKV(seam.Direct{}, &seam.Observer{AfterMap: func(path string) {
+		if !strings.Contains(path, marker) {
+			return
+		}
+		mu.Lock()
+		maps++
+		first := !flushStarted
+		flushStarted = true
+		done := flushDone
+		if done {
+			mapsAfterFlush++
+		}
+		mu.Unlock()
+		if first {
+			close(start)
+		}
+		// pacing only (never the verdict): this runs under the table cache lock, which the flush's commit needs, so the
+		// lookup cannot wait for the flush here; it yields in short steps (at most 50 ms per file, 40 files) and stops
+		// yielding as soon as the flush has completed. Whether the window opened is decided on the two logical events.
+		for i := 0; i < 25 && !done; i++ {
+			time.Sleep(2 * time.Millisecond)
+			mu.Lock()
+			done = flushDone
+			mu.Unlock()
+		}
+	}})
+	ok := d.expect("m", nil, []string{"host", "uid"}, "C10/flush-window/grouping",
+		"an index flush completed after the group-by lookup took the forward family's snapshot and before it read the memory stores of its later keys: "+
+			"the series that moved from the immutable store into the new file are in neither")
+	mu.Lock()
+	started, after, total := flushStarted, mapsAfterFlush, maps
+	mu.Unlock()
+	if !started {
+		close(start)
+	}
+	select {
+	case <-flushed:
+	case <-time.After(60 * time.Second):
+		res.Notes = append(res.Notes, "watchdog: flush-window-grouping: flush did not complete")
+		return
+	}
+	seam.Restore()
+	d.logf("forward files mapped by the lookup: %d, of them after the flush completed: %d (answer right: %v)", total, after, ok)
+	if started && after > 0 {
+		res.count("grouping_lookups_straddling_a_completed_flush", 1)
+	} else {
+		res.count("flush_window_not_reached.grouping", 1)
+	}
+	d.expect("m", nil, []string{"host", "uid"}, "C10/select/after-flush-window/grouping", "the same query after the flush")
+	res.count("directed_scenarios.flush-window-grouping", 1)
+}
+
 func runDirectedCase(idx int, dir, tier string, seed int64) *caseResult {
 	res := &caseResult{Kind: "directed", Index: idx}
 	_ = rand.New(rand.NewSource(seed))
@@ -383,6 +490,12 @@ func runDirectedCase(idx int, dir, tier string, seed int64) *caseResult {
 	for _, w := range []string{"inverted", "metric", "dictionary-like", "dictionary-regex", "dictionary-collect"} {
 		scenarioFlushWindow(res, dir, w)
 	}
-	res.Sample = map[string]interface{}{"case": "directed", "scenarios": []string{"narrow-classes", "flush-window-inverted", "flush-window-metric", "flush-window-dictionary-like", "flush-window-dictionary-regex", "flush-window-dictionary-collect"}}
+	for attempt := 0; attempt < 3; attempt++ {
+		scenarioGroupingFlushWindow(res, filepath.Join(dir, fmt.Sprintf("g%d", attempt)))
+		if res.Counters["grouping_lookups_straddling_a_completed_flush"] > 0 {
+			break
+		}
+	}
+	res.Sample = map[string]interface{}{"case": "directed", "scenarios": []string{"narrow-classes", "flush-window-inverted", "flush-window-metric", "flush-window-dictionary-like", "flush-window-dictionary-regex", "flush-window-dictionary-collect", "flush-window-grouping"}}
 	return res
 }
